@@ -59,7 +59,16 @@ type c16op struct {
 	Id   string `json:"id,omitempty"`
 }
 
+// c16last remembers the previous add / process so that "again" can repeat it verbatim.
+type c16last struct {
+	kind string
+	id   string
+	uid  string
+	inc  float64
+}
+
 type c16env struct {
+	last c16last
 	s       *Service
 	ctx     context.Context
 	cancel  context.CancelFunc
@@ -151,8 +160,24 @@ func (e *c16env) stored() (map[string]string, error) {
 
 func (e *c16env) apply(o c16op) (result string, err error) {
 	switch o.Kind {
+	case "again":
+		// a client retries its previous request verbatim
+		switch e.last.kind {
+		case "add":
+			err = e.s.AddMachine(e.ctx, "counter", e.last.id, "start", match.Bindings{"inc": e.last.inc, "n": 0.0})
+			return "again add", err
+		case "to", "all":
+			msg := map[string]interface{}{"uid": e.last.uid}
+			if e.last.kind == "to" {
+				msg["to"] = e.last.id
+			}
+			_, err = e.s.Process(e.ctx, msg, nil)
+			return "again process", err
+		}
+		return "again: nothing to repeat", nil
 	case "add":
 		inc := atomic.AddInt64(&e.incN, 1)
+		e.last = c16last{kind: "add", id: o.Id, inc: float64(inc)}
 		err = e.s.AddMachine(e.ctx, "counter", o.Id, "start", match.Bindings{"inc": float64(inc), "n": 0.0})
 		if err == nil {
 			return fmt.Sprintf("added inc=%d", inc), nil
@@ -166,6 +191,7 @@ func (e *c16env) apply(o c16op) (result string, err error) {
 		return "rem: " + err.Error(), err
 	case "to", "all":
 		uid := fmt.Sprintf("u%d", atomic.AddInt64(&e.uidN, 1))
+		e.last = c16last{kind: o.Kind, id: o.Id, uid: uid}
 		msg := map[string]interface{}{"uid": uid}
 		if o.Kind == "to" {
 			msg["to"] = o.Id
@@ -209,8 +235,10 @@ func genC16Seq(r *rand.Rand, n int) []c16op {
 			seq = append(seq, c16op{"add", id})
 		case k < 5:
 			seq = append(seq, c16op{"rem", id})
-		case k < 8:
+		case k < 7:
 			seq = append(seq, c16op{"to", id})
+		case k == 7:
+			seq = append(seq, c16op{"again", ""})
 		case k == 8:
 			seq = append(seq, c16op{"all", ""})
 		default:
@@ -527,7 +555,7 @@ func c16Concurrent(cfg fw.Config, rec *fw.Rec, idx int, interleavings map[string
 
 func init() {
 	verifRegistry["C16/mcrew"] = func(cfg fw.Config, rec *fw.Rec) {
-		rec.Rule = "sequential: operation sequences of length 2-8 over {add, rem, process-to, process-all, read-crew} on ids {m1,m2,m3}; for every 0 <= i < j <= n the bolt store is closed for operations i..j-1 (plus the fault-free run); after each operation with a healthy store memory must equal the store, an operation whose write failed must leave memory as it was, after recovery memory must equal the store; concurrent: 4-8 clients x 6-15 requests on 2-3 ids with every store write delayed 0-2 ms through the verifPoint hook: final memory == store, no two process results from one machine state, per-machine history linearizable (porcupine) w.r.t. a sequential service model; non-trivial = sequence run under a fault window / concurrent history; distinct by (sequence, window) / history"
+		rec.Rule = "sequential: operation sequences of length 2-8 over {add, rem, process-to, process-all, read-crew, retry-the-previous-request-verbatim} on ids {m1,m2,m3}; for every 0 <= i < j <= n the bolt store is closed for operations i..j-1 (plus the fault-free run); after each operation with a healthy store memory must equal the store, an operation whose write failed must leave memory as it was, after recovery memory must equal the store; concurrent: 4-8 clients x 6-15 requests on 2-3 ids with every store write delayed 0-2 ms through the verifPoint hook: final memory == store, no two process results from one machine state, per-machine history linearizable (porcupine) w.r.t. a sequential service model; non-trivial = sequence run under a fault window / concurrent history; distinct by (sequence, window) / history"
 		rec.Required = []string{"healthy_op_memory_equals_store", "failed_write_left_memory_unchanged", "recovered_store_agrees", "concurrent_histories", "histories_linearizable_per_machine", "fault_windows"}
 		rec.Assume = []string{"store faults are injected by closing the bolt database (every write and read fails until it is reopened); commits do not fsync (NoSync) because durability is not monitored", "machines are counters with a unique incarnation tag, so every state of every incarnation is distinguishable", "porcupine timeout 60 s = inconclusive"}
 		// sequential fault enumeration
@@ -543,7 +571,7 @@ func init() {
 			n := 2 + r.Intn(7)
 			seq := genC16Seq(r, n)
 			if i == 0 {
-				seq = []c16op{{"add", "m1"}, {"to", "m1"}, {"rem", "m1"}, {"add", "m1"}, {"all", ""}, {"get", ""}}
+				seq = []c16op{{"add", "m1"}, {"to", "m1"}, {"again", ""}, {"rem", "m1"}, {"add", "m1"}, {"again", ""}, {"all", ""}, {"get", ""}}
 				n = len(seq)
 			}
 			jobs = append(jobs, job{i, seq, 0, 0})
